@@ -96,6 +96,11 @@ def c17(tier):
     if thorough:
         run_family(chk, "framing", "prod", ["--seed", s, "--n", 0, "--prod-limit"], [FT], "in-prod-100MiB")
     chk.nontrivial = chk.traces_ok
+    if thorough:
+        # the same bookkeeping over unbounded integers (any limit, any message / read size)
+        import vlib
+        vlib.apalache_inductive(chk, "WriteBound")
+        vlib.apalache_inductive(chk, "ReadBound")
     return chk.finish()
 
 
